@@ -40,6 +40,9 @@ Print Assumptions C10_nunreach_lang.
 Theorem C10_nuseless_lang : forall A w, waccepts (nuseless A) w <-> waccepts A w.
 Proof. exact nuseless_lang. Qed.
 Print Assumptions C10_nuseless_lang.
+(* ... and every state RemoveUselessStates leaves is reachable from a start state and reaches a final state *)
+Theorem C10_nuseless_useful : forall A x, In x (nstates (nuseless A)) -> nuseful A x.
+Proof. exact nuseless_useful. Qed.
 (* GetCandidateTree: a result accepted by [ncandidate_ok] has a sub-language and is non-empty if A is *)
 Theorem C10_ncandidate_sub : forall A R, ncandidate_ok A R = true -> wlincl R A.
 Proof. exact ncandidate_sub. Qed.
